@@ -17,7 +17,8 @@ RULE = ('generated models (ints, huge/tiny/negative floats, non-ASCII and '
         'formulas over cells and ranges, names for cells and ranges (xlsx '
         'path), 1-2 sheets) x persist point in {compiled without code, '
         'compiled, after evaluating every cell, after overwriting inputs with '
-        'natives and with Excel-type objects} x extension in {.json, .gz, '
+        'natives and with Excel-type objects, after evaluating again; half '
+        'of the models go through all points as ONE object} x extension in {.json, .gz, '
         '.gzip, .GZ, .JSON, none}.  non-trivial = round trip taken after '
         'evaluation or overwrite, or containing a range/name/date/error; '
         'distinct by (model, persist point, extension)')
@@ -26,7 +27,7 @@ ASSUMPTIONS = [
     'value, formula text), formulae, defined names, ranges, and evaluation',
 ]
 FLOORS = {'round_trips': 150, 'point_uncompiled': 10, 'point_compiled': 10,
-          'point_evaluated': 10, 'point_overwritten': 10, 'gzip_files': 20,
+          'point_evaluated': 10, 'point_overwritten': 10, 'point_reevaluated': 5, 'gzip_files': 20,
           'plain_files': 20, 'evaluations_compared': 500}
 ANCHOR_FUNCS = {'xlcalculator/model.py': ['Model.persist_to_json_file',
                                           'Model.construct_from_json_file',
@@ -121,8 +122,11 @@ def run(ctx):
         xpath = os.path.join(out, f's{ctx.shard}.xlsx')
         same_object = rng.random() < 0.5     # one model through all points
         model = None
-        for point in ('uncompiled', 'compiled', 'evaluated', 'overwritten'):
+        for point in ('uncompiled', 'compiled', 'evaluated', 'overwritten',
+                      'reevaluated'):
             ext = rng.choice(EXTS)
+            if point == 'reevaluated' and not same_object:
+                continue
             if same_object and model is not None and point != 'uncompiled':
                 try:
                     if point == 'compiled':
@@ -154,7 +158,7 @@ def run(ctx):
                          group='build')
                 break
             ev = Evaluator(model)
-            if point in ('evaluated', 'overwritten'):
+            if point in ('evaluated', 'overwritten', 'reevaluated'):
                 for a in list(model.cells):
                     try:
                         ev.evaluate(a)
